@@ -47,6 +47,8 @@ class Ctx:
         fdir, th = extract.extract(profile, repo)
         self.tree_hash = th
         self.prog = Program(fdir)
+        from . import linear as _linear
+        _linear.PROG[0] = self.prog
         for part, cr in (("lib", self.prog.lib), ("bin", self.prog.bin)):
             n = sum(1 for f in cr.fns.values() if f.bkind == "fn")
             if n < extract.FLOORS[part]:
